@@ -261,6 +261,14 @@ class FakeChannel:
         self._settle(delivery_tag, requeue)
         await self._drain()
 
+    async def basic_recover(self, *, requeue=True, **kw):
+        """basic.recover: every unacknowledged delivery of this CHANNEL (whichever consumer it went to) is requeued."""
+        await asyncio.sleep(0)
+        self.log.append(("recover", requeue))
+        for t in sorted(self.unacked):
+            self._settle(t, True)
+        return spec.Basic.RecoverOk()
+
     async def _drain(self):
         # the frame is written (and acted upon by the server) before the client call returns; a redelivery
         # caused by it may therefore reach the consumer callback first
